@@ -297,6 +297,10 @@ def run(ck):
     os.makedirs(os.path.join(d, "patomic"))
     shutil.copy(os.path.join(H, "patomic", "atomic.go"), os.path.join(d, "patomic", "atomic.go"))
     ccmod.add_pkg(d, "rt11", os.path.join(H, "rt11"), ["runtime/internal/lib/runtime/sema_llgo.go"], drop_linkname=True)
+    # atomic.Value: value.go copied next to stand-ins for the pointer atomics, its own harness
+    ccmod.add_pkg(d, "av", os.path.join(H, "av"), ["runtime/internal/lib/sync/atomic/value.go"], drop_linkname=True)
+    vout_p = os.path.join(ck.work, "c11v.jsonl")
+    vfut = ThreadPoolExecutor(1).submit(ccmod.go_test, ck, d, "av", {"VERIF_OUT": vout_p, "VERIF_N": {"quick": "600", "thorough": "20000"}[ck.tier]}, 600)
     win = os.path.join(ck.work, "witness.json")
     json.dump([{"Name": n, "M": m, "Init": i, "Progs": p, "Sched": sc} for n, m, i, p, sc in WITNESSES], open(win, "w"))
     out = os.path.join(ck.work, "c11.jsonl")
@@ -331,6 +335,11 @@ def run(ck):
     if rcw != 0:
         ck.correspondence_broken("C11.witnesses", outw[-800:])
 
+    lim = {"quick": 10 ** 9, "thorough": 50000}[ck.tier]
+    ck.cov["schedules_executed_and_judged_by_oracle"] = len(runs)
+    if len(runs) > lim:      # model evaluation inside Coq on a seeded sample (the oracle judged all of them)
+        runs = runs[:len(WITNESSES)] + ck.rng.sample(runs[len(WITNESSES):], lim - len(WITNESSES))
+    ck.cov["schedules_compared_with_model_in_coq"] = len(runs)
     hdr = "From LLGoV Require Import Lib.Common C11.Model.\nLocal Open Scope N_scope.\n"
     for m, fobs, feq in (("sema", "s_observe", "sobs_eqb"), ("notify", "n_observe", "nobs_eqb")):
         sub = [r for r in runs if r["m"] == m]
@@ -339,6 +348,32 @@ def run(ck):
             b = sub[bad[0]]
             ck.correspondence_broken("C11.Model/" + m, {"n_mismatch": len(bad), "first": {
                 k: b[k] for k in ("m", "init", "progs", "sched", "masks", "done", "fin", "end")}})
+    # machine V (atomic.Value)
+    rcv, logv = vfut.result()
+    vruns = []
+    if rcv != 0 or not os.path.exists(vout_p):
+        ck.correspondence_broken("harness:value.go", logv[-1500:])
+    else:
+        for line in open(vout_p):
+            r = json.loads(line)
+            if r["kind"] == "run":
+                vruns.append(r)
+            elif r["kind"] == "viol":
+                ck.violation(r["key"], r.get("what", ""), {k: r[k] for k in ("progs", "sched", "end", "history")})
+        if len(vruns) > lim:
+            vruns = ck.rng.sample(vruns, lim)
+
+        def vterm(r):
+            progs = coq_list([coq_list([("VLoad" if c == "L" else "(VStore %s)" % c) for c in p]) for p in r["progs"]])
+            res = coq_list([coq_list([("VRStore" if x == -1 else "VRNil" if x == 0 else "(VRVal %d)" % max(x, 0)) for x in (th or [])]) for th in r["res"]])
+            return "(((%s, %s) : list (list vop) * list nat), ((%s, %s, (%d, %d)) : vobservation))" % (
+                progs, "[" + ";".join("%d%%nat" % t for t in r["sched"]) + "]",
+                "[" + ";".join(str(m) for m in r["masks"]) + "]", res, r["fin"][0], r["fin"][1])
+        vbad = ck.coq_mismatches(hdr, [vterm(r) for r in vruns], "v_observe", "vobs_eqb", "c11_value", shard=300)
+        if vbad:
+            b = vruns[vbad[0]]
+            ck.correspondence_broken("C11.Model/value", {"n_mismatch": len(vbad), "first": {k: b[k] for k in ("progs", "sched", "masks", "res", "fin", "end")}})
+    ck.cov["value_runs"] = len(vruns)
     ck.phase("model compared")
 
     covs = []
@@ -360,7 +395,7 @@ def run(ck):
 
     distinct = len({(r["m"], r["init"], tuple(r["progs"]), json.dumps(r["sched"])) for r in runs if len(r["sched"]) > 4})
     samples = [{k: r[k] for k in ("m", "init", "progs", "sched", "done", "fin", "end")} for r in runs[len(runs) // 3: len(runs) // 3 + 2]]
-    ck.add_cov(evaluations=len(runs), nontrivial=distinct, samples=samples, classes=stats.get("classes", {}))
+    ck.add_cov(evaluations=len(runs) + len(vruns), nontrivial=distinct + len({(tuple(r["progs"]), tuple(r["sched"])) for r in vruns}), samples=samples, classes=stats.get("classes", {}))
     ck.cov["steps_executed_on_real_code"] = sum(len(r["sched"]) for r in runs)
     ck.cov["witness_replays"] = [{"name": w["name"], "end": w["end"], "flagged": w["flagged"]} for w in wit]
     ck.cov["rule"] = ("explicit schedules executed on the real sema_llgo.go (goroutines gated at every atomic operation, Lock, Wait, Signal, "
